@@ -38,6 +38,9 @@ pub struct FieldC {
 pub struct EntityC {
     pub name: String,
     pub fields: Vec<FieldC>,
+    /// an index declared on this (scalar) field
+    #[serde(default)]
+    pub index: Option<String>,
 }
 pub type ModelC = Vec<EntityC>;
 
@@ -78,6 +81,9 @@ pub fn render(m: &ModelC) -> String {
                 }
             }
         }
+        if let Some(ix) = &e.index {
+            s.push_str(&format!(", index({ix})"));
+        }
         s.push_str(" } ");
     }
     s.push('}');
@@ -101,7 +107,7 @@ fn gen_model(r: &mut Rng) -> ModelC {
     let mut m: ModelC = vec![];
     for _ in 0..ne {
         let name = take(r, &mut used);
-        m.push(EntityC { name, fields: vec![] });
+        m.push(EntityC { name, fields: vec![], index: None });
     }
     for i in 0..ne {
         let nf = 2 + r.usize(5);
@@ -129,7 +135,14 @@ pub struct Cfg {
 #[serde(tag = "t")]
 pub enum Step {
     /// data model update; `valid` = built as a valid extension of the running model
-    Model { text: String, valid: bool, shape: String },
+    Model {
+        text: String,
+        valid: bool,
+        shape: String,
+        /// the model this text renders, when it is a valid evolution of the running one
+        #[serde(default)]
+        evolved: Option<ModelC>,
+    },
     /// api: query | mutate | delete. In `params`, the strings "@ROOM" and "@ID:<entity index>" are replaced at run time
     Req { api: String, text: String, params: Option<String>, valid: bool, shape: String },
     /// the victim pulls from the peer, whose answers of kind `kind` are replaced following `variant`
@@ -494,10 +507,14 @@ pub fn generate(seed: u64, property: &str, thorough: bool) -> Trace {
     let mut rc = Rng::stream(seed, "config");
     let mut rw = Rng::stream(seed, "workload");
     let model = gen_model(&mut rc);
-    let mut steps = vec![Step::Model { text: render(&model), valid: true, shape: "generated-model".into() }];
+    let mut steps = vec![Step::Model { text: render(&model), valid: true, shape: "generated-model".into(), evolved: None }];
+    // the running model evolves by valid versions (index added, index removed, field added); requests keep using the
+    // first version, of which every later one is a superset
+    let mut cur = model.clone();
+    let mut added = 0usize;
     let n = if thorough { 25 + rw.usize(25) } else { 10 + rw.usize(14) };
     for _ in 0..n {
-        match rw.weighted(&[52, 18, 6, 10, 10, 4, 5, 4, 3]) {
+        match rw.weighted(&[52, 18, 6, 10, 10, 6, 5, 4, 3, 8]) {
             0 => steps.push(gen_request(&mut rw, &model)),
             1 => {
                 if let Step::Req { api, text, params, shape, .. } = gen_request(&mut rw, &model) {
@@ -506,7 +523,7 @@ pub fn generate(seed: u64, property: &str, thorough: bool) -> Trace {
             }
             2 => {
                 let text = mutate_text(&mut rw, &render(&model));
-                steps.push(Step::Model { text, valid: false, shape: "mutated-model".into() });
+                steps.push(Step::Model { text, valid: false, shape: "mutated-model".into(), evolved: None });
             }
             3 => {
                 let variant = rw.pick(&ANSWER_VARIANTS).to_string();
@@ -524,9 +541,25 @@ pub fn generate(seed: u64, property: &str, thorough: bool) -> Trace {
                     steps.push(Step::Req { api, text, params: Some(rw.pick(&HOSTILE_PARAMS).to_string()), valid: false, shape: format!("hostile-params:{}", shape.split(':').next().unwrap_or("")) });
                 }
             }
-            _ => {
+            8 => {
                 let text = if rw.chance(1, 3) { render(&model) } else { mutate_text(&mut rw, &render(&model)) };
                 steps.push(Step::StartWith { text, shape: "mutated-model".into() });
+            }
+            _ => {
+                let ei = rw.usize(cur.len());
+                let shape = if cur[ei].index.is_some() {
+                    cur[ei].index = None;
+                    "index-removed"
+                } else if rw.chance(2, 3) {
+                    let sc: Vec<String> = cur[ei].fields.iter().filter(|f| f.ty <= 3).map(|f| f.name.clone()).collect();
+                    cur[ei].index = Some(rw.pick(&sc).clone());
+                    "index-added"
+                } else {
+                    added += 1;
+                    cur[ei].fields.push(FieldC { name: format!("added_{added}"), ty: rw.usize(6) as u8, nullable: true, default: false, target: 0 });
+                    "field-added"
+                };
+                steps.push(Step::Model { text: render(&cur), valid: true, shape: shape.into(), evolved: Some(cur.clone()) });
             }
         }
     }
@@ -545,15 +578,15 @@ pub fn directed(property: &str) -> Vec<Trace> {
     let f = |name: &str, ty: u8, nullable: bool| FieldC { name: name.into(), ty, nullable, default: false, target: 0 };
     let fd = |name: &str, ty: u8, target: usize| FieldC { name: name.into(), ty, nullable: false, default: true, target };
     let model: ModelC = vec![
-        EntityC { name: "Doc".into(), fields: vec![f("title", 3, false), f("meta", 5, true), f("group", 0, true), f("bin", 4, true), f("others", 7, false)] },
-        EntityC { name: "1a".into(), fields: vec![f("select", 3, false), fd("tag", 3, 1), fd("conf", 5, 0), f("n", 0, true), f("j", 5, true)] },
+        EntityC { name: "Doc".into(), fields: vec![f("title", 3, false), f("meta", 5, true), f("group", 0, true), f("bin", 4, true), f("others", 7, false)], index: None },
+        EntityC { name: "1a".into(), fields: vec![f("select", 3, false), fd("tag", 3, 1), fd("conf", 5, 0), f("n", 0, true), f("j", 5, true)], index: None },
     ];
     let mk = |note: &str, steps: Vec<Step>| Trace {
         engine: "chaos".into(),
         property: property.into(),
         seed: 0,
         cfg: serde_json::to_value(&Cfg { model: model.clone() }).unwrap(),
-        steps: std::iter::once(Step::Model { text: render(&model), valid: true, shape: "generated-model".into() }).chain(steps.into_iter()).map(|s| serde_json::to_value(&s).unwrap()).collect(),
+        steps: std::iter::once(Step::Model { text: render(&model), valid: true, shape: "generated-model".into(), evolved: None }).chain(steps.into_iter()).map(|s| serde_json::to_value(&s).unwrap()).collect(),
         expect_fingerprint: None,
         note: Some(note.to_string()),
     };
@@ -594,6 +627,18 @@ pub fn directed(property: &str) -> Vec<Trace> {
             q("query { 1a (search(\"\")) { select } }", "query:search"),
         ],
     ));
+    {
+        let mut m1 = model.clone();
+        m1[0].index = Some("title".into());
+        let m2 = model.clone();
+        let mut m3 = model.clone();
+        m3[0].fields.push(f("added_1", 0, true));
+        let ev = |m: &ModelC, shape: &str| Step::Model { text: render(m), valid: true, shape: shape.into(), evolved: Some(m.clone()) };
+        out.push(mk(
+            "C14 an index is added, removed, then the model changes again and the instance restarts",
+            vec![ev(&m1, "index-added"), Step::Restart, ev(&m2, "index-removed"), ev(&m3, "field-added"), Step::Restart, ev(&m1, "index-added"), Step::Restart],
+        ));
+    }
     for v in ANSWER_VARIANTS {
         out.push(mk(&format!("C14 hostile Nodes answer: {v}"), vec![Step::PeerAnswer { kind: "Nodes".into(), variant: v.into() }]));
     }
@@ -700,7 +745,13 @@ fn restart(c: &mut Ctx) -> Result<(), String> {
     if c.model_live {
         c.w.nodes[A].model = render(&c.model);
     }
-    c.w.nodes[A].start()?;
+    if let Err(e) = c.w.nodes[A].start() {
+        // an instance must restart on what it accepted and wrote itself
+        c.w.violation("C14", "cannot-restart", format!("the instance no longer starts on its own data and the last data model it accepted: {}", crate::kit::cut(&e, 200)));
+        // go on with the first model (or not at all)
+        c.w.nodes[A].model = format!("{{ {BASE_MODEL} }}");
+        c.w.nodes[A].start()?;
+    }
     let _ = crate::kit::take_panics();
     Ok(())
 }
@@ -724,7 +775,7 @@ fn exec_step(c: &mut Ctx, st: &Step) -> Result<String, String> {
     c.now += 1000;
     clocks(c);
     match st {
-        Step::Model { text, valid, shape } => {
+        Step::Model { text, valid, shape, evolved } => {
             let db = c.w.nodes[A].dbh();
             let t = text.clone();
             let r = c.w.nodes[A].run(async move {
@@ -743,6 +794,9 @@ fn exec_step(c: &mut Ctx, st: &Step) -> Result<String, String> {
                     if *valid {
                         c.model_live = true;
                         c.any = true;
+                        if let Some(m) = evolved {
+                            c.model = m.clone();
+                        }
                     } else {
                         // a mutated text was accepted: the instance now runs a model the harness does not know;
                         // remember it for restarts
